@@ -289,7 +289,7 @@ class StoredContext(Monitor):
 
 def cases(seed, tier):
     rng = random.Random('c05-%s' % seed)
-    n_cases = 140 if tier == 'quick' else 2500
+    n_cases = 280 if tier == 'quick' else 3000
     out = []
     for k in range(n_cases):
         prng = random.Random(rng.getrandbits(64))
